@@ -26,19 +26,21 @@ def trRes (s : St) (r : Res) : String :=
     | some cn => s!"W{id}:{hex cn.addr}:{if cn.tls then 1 else 0}"
     | none => s!"W{id}:?"
 
-/-- ops: N addr tls | C first scheme host keep | H first i scheme keep.  `first` = 0 marks a later hop of a redirect
+/-- ops: N addr tls cfgOk | C first scheme host keep cfgOk | H first i scheme keep.  `first` = 0 marks a later hop of a redirect
     chain: it only happens if the previous hop wrote its request. -/
 def trRun : St → Bool → List Bytes → List String → Option (List String)
   | _, _, [], acc => some acc.reverse
-  | s, _, [78] :: addr :: tls :: rest, acc => do
+  | s, _, [78] :: addr :: tls :: cfg :: rest, acc => do
     let tls ← trFlag? tls
-    trRun (step trDialOk s (.newHC addr tls)).1 false rest ("-" :: acc)
-  | s, prev, [67] :: first :: scheme :: host :: keep :: rest, acc => do
+    let cfg ← trFlag? cfg
+    trRun (step trDialOk s (.newHC addr tls cfg)).1 false rest ("-" :: acc)
+  | s, prev, [67] :: first :: scheme :: host :: keep :: cfg :: rest, acc => do
     let first ← trFlag? first
     let keep ← trFlag? keep
+    let cfg ← trFlag? cfg
     if !first && !prev then trRun s false rest ("S" :: acc)
     else
-      let r := clientDo trDialOk s scheme host keep
+      let r := clientDo trDialOk s scheme host keep cfg
       trRun r.1 (match r.2 with | .wrote _ => true | _ => false) rest (trRes r.1 r.2 :: acc)
   | s, prev, [72] :: first :: i :: scheme :: keep :: rest, acc => do
     let first ← trFlag? first
